@@ -18,16 +18,17 @@ func runC09(opt *Options) int {
 			{Name: "K10.validatemethods", Pkg: "generator", Harness: "VerifHarness_C09_ValidateMethods", Unwind: 24, ReplayTries: 12},
 			func() layera.Kernel { k := kernelGenerateConverters("c09"); k.Name = "K8.writefiles"; return k }(),
 			{Name: "K10.extendorder", Pkg: "config", Harness: "VerifHarness_C09_ExtendOrder", Unwind: 24, E2E: "c09", Stub: []string{"(*github.com/jmattheis/goverter/pkgload.PackageLoader).GetMatching"}},
+			{Name: "K10.variablesorder", Pkg: "config", Harness: "VerifHarness_C09_VariablesOrder", Unwind: 24, E2E: "c09", Stub: []string{"(*github.com/jmattheis/goverter/pkgload.PackageLoader).GetOneRaw", "github.com/jmattheis/goverter/config.formatLineError", "github.com/jmattheis/goverter/method.Parse", "(*go/types.Var).String"}},
 			{Name: "K8.outputfile", Pkg: "config", Harness: "VerifHarness_C15_OutputFile", Unwind: 64, Stub: []string{"github.com/jmattheis/goverter/method.Parse"}, E2E: "c09"},
 			{Name: "K7.filescan", Pkg: "comments", Harness: "VerifHarness_C19_ParseDocsFiles", Unwind: 64, E2E: "c09"},
 			{Name: "K10.unknownfields", Pkg: "builder", Harness: "VerifHarness_C09_UnknownFields", Unwind: 24, ReplayTries: 12},
 		},
-		Funcs:     []string{"xtype.Enum.SortedMembers", "xtype.UsageFromMap", "xtype.UsageChecker.Used/Unused", "method.AvailableContextDebug", "method.(*Index).Register/GetAll", "generator.(*generator).getGenMethods", "generator.validateMethods", "builder.(*Struct).Assign (tail: configured fields that do not exist)", "builder.(*MethodContext).DefinedFields", "config.parseConverterLine (extend, output:file arms)", "parse.File"},
+		Funcs:     []string{"xtype.Enum.SortedMembers", "xtype.UsageFromMap", "xtype.UsageChecker.Used/Unused", "method.AvailableContextDebug", "method.(*Index).Register/GetAll", "generator.(*generator).getGenMethods", "generator.validateMethods", "builder.(*Struct).Assign (tail: configured fields that do not exist)", "builder.(*MethodContext).DefinedFields", "config.parseConverterLine (extend, output:file arms)", "config.parseMethods (variables blocks)", "parse.File"},
 		E2EAlways: "c09",
 		Bounds:    "maps with 2..3 entries whose keys are symbolic one-byte names (pairwise distinct) or fixed distinct names; the order of every range over a map is a symbolic choice over all permutations; each function runs twice per path and must agree with itself",
 		Assume: []string{
 			"only the map-iteration factor of C09 has an encodable kernel; repetition across processes, pattern order/overlap, -cwd vs chdir, relocation and histories of earlier runs are process / file-system level and outside",
-			"parseMethods for variables blocks, config.Parse's final sort, getPackages, Enum.Build's unused-key loop are not covered (their context needs the loader)",
+			"config.Parse's final sort, getPackages, Enum.Build's unused-key loop are not covered (their context needs the loader)",
 			"sort.Strings / sort.Slice are engine builtins (insertion sort, every comparison a decision)",
 			"native replay relies on Go's per-range randomisation: the replay is repeated up to 12 times",
 		},
